@@ -12,7 +12,9 @@ ops `stereo …` and `hist …` (C20): stereographic model and histogram skeleto
   hist corr <wrap|reflect> <r> <w:2r+1> <f:n>         `correlate1d`                              → n
   hist smooth2 <na> <np> <r0> <r1> <w0> <w1> <h:na·np>  `gaussian_filter(mode=("wrap","reflect"))` with given kernels → na·np
   hist mrd <n> <h:n> <mask:n as 0/1 floats>           division by the masked mean                → n | !err undefined
-  hist pdf <na> <np> <ea> <ep> <(x y z w):4m>         full pipeline without smoothing, no mask   → na'·np' | !err undefined
+  hist pdf <na> <np> <r0> <r1> <mrd|raw> <ea> <ep> <w0:2r0+1> <w1:2r1+1> <(x y z w):4m>
+                                                      full pipeline (no symmetry, no mask): spherical coordinates,
+                                                      histogram, smoothing with the given kernels, [MRD]  → (na-1)(np-1) | !err undefined
 -/
 namespace Orix.Driver.St
 open Orix Proto Stereo Hist
@@ -127,17 +129,27 @@ def handleHist : List String → String
           | some o => floats o
           | none => "!err undefined"
         | none => "!err parse"
-      | "pdf", [a, b] =>
-        match a.toNat?, b.toNat? with
-        | some na, some np =>
+      | "pdf", [a, b, c, d, m] =>
+        match nats [a, b, c, d] with
+        | some [na, np, r0, r1] =>
           let ea := xs.take na
           let ep := (xs.drop na).take np
-          let pts := quads (xs.drop (na + np))
-          let nb := (na - 1) * (np - 1)
-          match pdf (fun v => v) ea ep (fun h => h) (List.replicate nb false) pts with
-          | some o => floats o
-          | none => "!err undefined"
-        | _, _ => "!err parse"
+          let rest := xs.drop (na + np)
+          let w0 := (rest.take (2 * r0 + 1)).toArray
+          let w1 := ((rest.drop (2 * r0 + 1)).take (2 * r1 + 1)).toArray
+          let pts := quads (rest.drop (2 * r0 + 1 + 2 * r1 + 1))
+          let ba := na - 1
+          let bp := np - 1
+          if ba == 0 || bp == 0 then "!err parse" else
+          let post : List Float → List Float := fun h =>
+            let arr := h.toArray
+            ((List.range ba).map fun i => (List.range bp).map fun j =>
+              smooth2 ba bp r0 r1 (sig w0) (sig w1) (sig2 arr bp) i j).flatten
+          if m == "raw" then floats (pdfRaw (fun v => v) ea ep post pts)
+          else match pdf (fun v => v) ea ep post (List.replicate (ba * bp) false) pts with
+            | some o => floats o
+            | none => "!err undefined"
+        | _ => "!err parse"
       | _, _ => "!err bad-op"
   | [] => "!err bad-op"
 
